@@ -30,7 +30,13 @@ except ImportError:
 import busio  # type:ignore[import]
 from digitalio import DigitalInOut  # type:ignore[import]
 from ..rf24 import RF24, address_repr
-from .structs import RF24NetworkFrame, FrameQueue, FrameQueueFrag, is_address_valid
+from .structs import (
+    RF24NetworkFrame,
+    RF24NetworkHeader,
+    FrameQueue,
+    FrameQueueFrag,
+    is_address_valid,
+)
 from .constants import (
     MAX_FRAG_SIZE,
     MSG_FRAG_FIRST,
@@ -463,6 +469,7 @@ class NetworkMixin(RadioMixin):
         if not self._validate_msg_len(len(message)):
             message = message[:MAX_FRAG_SIZE]
         level = self._net_lvl if level is None else min(4, max(level, 0))
+        self.frame_buf.header = RF24NetworkHeader()  # every message gets its own frame id
         self.frame_buf.header.to_node = NETWORK_MULTICAST_ADDR
         self.frame_buf.header.from_node = self._addr
         message_type = (
